@@ -46,6 +46,44 @@ impl Pty {
             Some(Pty { master: m, slave_path: path })
         }
     }
+    /// Open and close the slave once. From then on a read on the master fails with EIO exactly while
+    /// nobody holds the slave open, which makes "is the port really open" observable from outside.
+    pub fn open_primed() -> Option<Pty> {
+        let p = Pty::open()?;
+        let c = std::ffi::CString::new(p.slave_path.clone()).ok()?;
+        unsafe {
+            let fd = libc::open(c.as_ptr(), libc::O_RDWR | libc::O_NOCTTY);
+            if fd < 0 {
+                return None;
+            }
+            libc::close(fd);
+        }
+        Some(p)
+    }
+    /// Some(true): somebody holds the slave open; Some(false): nobody does (primed pty only)
+    pub fn slave_open(&self) -> Option<bool> {
+        let mut buf = [0u8; 64];
+        let n = unsafe { libc::read(self.master, buf.as_mut_ptr() as *mut libc::c_void, buf.len()) };
+        if n >= 0 {
+            return Some(true);
+        }
+        match std::io::Error::last_os_error().raw_os_error() {
+            Some(libc::EIO) => Some(false),
+            Some(libc::EAGAIN) => Some(true),
+            _ => None,
+        }
+    }
+    /// poll until the slave is (not) held open; returns the instant of the observation
+    pub fn wait_slave(&self, open: bool, limit: Duration) -> Option<Instant> {
+        let t0 = Instant::now();
+        while t0.elapsed() < limit {
+            if self.slave_open() == Some(open) {
+                return Some(Instant::now());
+            }
+            std::thread::sleep(Duration::from_millis(1));
+        }
+        None
+    }
     pub fn write(&self, data: &[u8]) -> bool {
         let mut off = 0;
         let t0 = Instant::now();
@@ -423,6 +461,241 @@ pub async fn rtu_server_pty(frames: usize, seed: u64, ev: &mut Evidence) -> Vec<
     if tokio::time::timeout(Duration::from_secs(10), jh).await.is_err() {
         problems.push(("rtu_server:task_did_not_terminate".into(), "RTU server task still running 10 s after shutdown".into()));
     }
+    problems
+}
+
+fn unique_link(tag: &str) -> String {
+    static N: std::sync::atomic::AtomicU64 = std::sync::atomic::AtomicU64::new(0);
+    format!("/tmp/verif-tty-{}-{}-{}", std::process::id(), tag, N.fetch_add(1, std::sync::atomic::Ordering::SeqCst))
+}
+
+fn point_link(link: &str, target: &str) -> bool {
+    let tmp = format!("{link}.new");
+    let _ = std::fs::remove_file(&tmp);
+    std::os::unix::fs::symlink(target, &tmp).is_ok() && std::fs::rename(&tmp, link).is_ok()
+}
+
+async fn next_port_state(rx: &mut mpsc::UnboundedReceiver<(PortState, Instant)>, want: &str, limit: Duration, seen: &mut Vec<&'static str>) -> Option<(PortState, Instant)> {
+    let t0 = Instant::now();
+    while t0.elapsed() < limit {
+        match tokio::time::timeout(Duration::from_millis(50), rx.recv()).await {
+            Ok(Some((s, t))) => {
+                seen.push(port_name(&s));
+                if port_name(&s) == want {
+                    return Some((s, t));
+                }
+            }
+            Ok(None) => return None,
+            Err(_) => {}
+        }
+    }
+    None
+}
+
+/// Serial client on a port that opens, is disabled / enabled, disappears and comes back (a symlink
+/// that is re-pointed from one pty to another): the port must really be closed after a disable,
+/// requests during the wait after the loss fail with no-connection, the port is re-opened no earlier
+/// than the announced delay after the loss (measured from outside, at the pty master).
+pub async fn serial_client_reopen(k: usize, ev: &mut Evidence) -> Vec<(String, String)> {
+    let mut problems = vec![];
+    let (Some(a), Some(b)) = (Pty::open_primed(), Pty::open_primed()) else {
+        ev.count("pty_unavailable", 1);
+        return problems;
+    };
+    let link = unique_link("client");
+    if !point_link(&link, &a.slave_path) {
+        ev.count("pty_unavailable", 1);
+        return problems;
+    }
+    let min = Duration::from_millis(*[250u64, 400][k % 2..].first().unwrap());
+    let max = Duration::from_millis(1000);
+    let log = Arc::new(Mutex::new(vec![]));
+    let (tx, mut rx) = mpsc::unbounded_channel();
+    let (channel, task) = create_rtu_client_task(&link, settings(), 4, Box::new(LogStrategy { inner: doubling_retry_strategy(min, max), log: log.clone() }), DecodeLevel::nothing(), Some(Box::new(PortGate { tx })));
+    let jh = tokio::spawn(task.run());
+    let mut seen: Vec<&'static str> = vec![];
+    let a = Arc::new(a);
+    let b = Arc::new(b);
+    let fail = |problems: &mut Vec<(String, String)>, sig: &str, what: String| problems.push((sig.to_string(), what));
+    let mut a_closed_by_hand = false;
+    'script: {
+        let _ = channel.enable().await;
+        if next_port_state(&mut rx, "Open", Duration::from_secs(3), &mut seen).await.is_none() {
+            fail(&mut problems, "serial:port_never_open", format!("states {seen:?}"));
+            break 'script;
+        }
+        let a2 = a.clone();
+        if tokio::task::spawn_blocking(move || a2.wait_slave(true, Duration::from_secs(2))).await.ok().flatten().is_none() {
+            ev.inconclusive("serial reopen leg: Open announced but the pty does not show the slave as held");
+            break 'script;
+        }
+        // disable while open: Disabled is announced and the port is really released
+        let _ = channel.disable().await;
+        if next_port_state(&mut rx, "Disabled", Duration::from_secs(3), &mut seen).await.is_none() {
+            fail(&mut problems, "serial:no_disabled_after_disable", format!("states {seen:?}"));
+            break 'script;
+        }
+        let a2 = a.clone();
+        if tokio::task::spawn_blocking(move || a2.wait_slave(false, Duration::from_secs(2))).await.ok().flatten().is_none() {
+            fail(&mut problems, "serial:port_still_open_after_disable", "the channel reports Disabled but still holds the serial port open 2 s later".to_string());
+            break 'script;
+        }
+        ev.count("serial_port_released_after_disable", 1);
+        let _ = channel.enable().await;
+        if next_port_state(&mut rx, "Open", Duration::from_secs(3), &mut seen).await.is_none() {
+            fail(&mut problems, "serial:no_open_after_enable", format!("states {seen:?}"));
+            break 'script;
+        }
+        // the port disappears: the link now leads to another device, the first one is hung up
+        if !point_link(&link, &b.slave_path) {
+            ev.inconclusive("serial reopen leg: cannot re-point the symlink");
+            break 'script;
+        }
+        let t_kill = Instant::now();
+        unsafe { libc::close(a.master) };
+        a_closed_by_hand = true;
+        let Some((PortState::Wait(d), _)) = next_port_state(&mut rx, "Wait", Duration::from_secs(3), &mut seen).await else {
+            fail(&mut problems, "serial:no_wait_after_port_loss", format!("states {seen:?}"));
+            break 'script;
+        };
+        if d != min {
+            fail(&mut problems, "serial:delay_after_port_loss", format!("Wait({d:?}) announced after a lost port, the strategy's minimum is {min:?}"));
+        }
+        // a request during that wait fails with no-connection
+        let r = channel.read_coils(RequestParam::new(UnitId::new(1), Duration::from_millis(100)), AddressRange::try_from(0, 1).unwrap()).await;
+        ev.count("serial_requests_during_wait_after_loss", 1);
+        if r != Err(RequestError::NoConnection) {
+            fail(&mut problems, &format!("serial:request_during_wait_after_loss:{}", match &r { Ok(_) => "ok".to_string(), Err(e) => format!("{e:?}").split('(').next().unwrap().to_string() }), format!("a request submitted while the serial channel was waiting to re-open a lost port completed with {r:?}"));
+        }
+        let b2 = b.clone();
+        let Some(t_open) = tokio::task::spawn_blocking(move || b2.wait_slave(true, Duration::from_secs(5))).await.ok().flatten() else {
+            fail(&mut problems, "serial:port_not_reopened", format!("the port was not re-opened within 5 s after it came back; states {seen:?}"));
+            break 'script;
+        };
+        ev.count("serial_reopen_waits_measured", 1);
+        // the loss happened at or after t_kill, the open at or before t_open
+        if t_open.duration_since(t_kill) < min {
+            fail(&mut problems, "serial:reopened_before_announced_delay", format!("Wait({d:?}) announced, but the port was opened again {:?} after it was lost", t_open.duration_since(t_kill)));
+        }
+        if next_port_state(&mut rx, "Open", Duration::from_secs(3), &mut seen).await.is_none() {
+            fail(&mut problems, "serial:no_open_after_reopen", format!("states {seen:?}"));
+            break 'script;
+        }
+        // and it works: a request appears on the new device
+        let ch2 = channel.clone();
+        let req = tokio::spawn(async move { ch2.read_holding_registers(RequestParam::new(UnitId::new(9), Duration::from_millis(150)), AddressRange::try_from(3, 2).unwrap()).await });
+        let b2 = b.clone();
+        let seen_bytes = tokio::task::spawn_blocking(move || b2.read_for(Duration::from_millis(500), Duration::from_millis(30))).await.unwrap_or_default();
+        let _ = req.await;
+        if seen_bytes != rtu_frame(9, &[3, 0, 3, 0, 2]) {
+            fail(&mut problems, "serial:client_request_bytes_after_reopen", format!("after the re-open the client emitted {}", hex(&seen_bytes)));
+        } else {
+            ev.count("serial_frames_crc_checked", 1);
+        }
+    }
+    let _ = channel.shutdown().await;
+    if tokio::time::timeout(Duration::from_secs(10), jh).await.is_err() {
+        problems.push(("serial:task_did_not_terminate:reopen".into(), "serial client task still running 10 s after shutdown".into()));
+    }
+    let _ = std::fs::remove_file(&link);
+    // `a`'s descriptor may already be closed by hand: do not close it twice
+    if a_closed_by_hand {
+        if let Ok(p) = Arc::try_unwrap(a) {
+            std::mem::forget(p);
+        }
+    }
+    ev.class(format!("serial_client|reopen|{}", seen.iter().take(8).cloned().collect::<Vec<_>>().join(">")));
+    problems
+}
+
+/// RTU server whose port disappears and comes back: the re-open happens no earlier than the
+/// strategy's delay after the loss (measured at the pty master), and the server answers again.
+pub async fn rtu_server_reopen(k: usize, ev: &mut Evidence) -> Vec<(String, String)> {
+    let mut problems = vec![];
+    let (Some(a), Some(b)) = (Pty::open_primed(), Pty::open_primed()) else {
+        ev.count("pty_unavailable", 1);
+        return problems;
+    };
+    let link = unique_link("server");
+    if !point_link(&link, &a.slave_path) {
+        ev.count("pty_unavailable", 1);
+        return problems;
+    }
+    let min = Duration::from_millis(*[300u64, 450][k % 2..].first().unwrap());
+    let log = Arc::new(Mutex::new(vec![]));
+    let map = ServerHandlerMap::single(UnitId::new(7), Regs.wrap());
+    let (handle, task) = create_rtu_server_task(&link, settings(), Box::new(LogStrategy { inner: doubling_retry_strategy(min, Duration::from_secs(2)), log: log.clone() }), map, DecodeLevel::nothing());
+    let jh = tokio::spawn(task.run());
+    let a = Arc::new(a);
+    let b = Arc::new(b);
+    let mut a_closed_by_hand = false;
+    'script: {
+        let a2 = a.clone();
+        if tokio::task::spawn_blocking(move || a2.wait_slave(true, Duration::from_secs(3))).await.ok().flatten().is_none() {
+            problems.push(("rtu_server:port_never_opened".into(), "the RTU server did not open its port within 3 s".into()));
+            break 'script;
+        }
+        // let it serve for longer than the delay, and check that it does serve
+        tokio::time::sleep(min + Duration::from_millis(100)).await;
+        let good = rtu_frame(7, &[3, 0, 5, 0, 2]);
+        let want = rtu_frame(7, &[3, 4, 0, 15, 0, 18]);
+        let (a2, g2) = (a.clone(), good.clone());
+        let reply = tokio::task::spawn_blocking(move || {
+            a2.write(&g2);
+            a2.read_for(Duration::from_millis(600), Duration::from_millis(15))
+        })
+        .await
+        .unwrap_or_default();
+        if reply != want {
+            problems.push(("rtu_server:valid_frame_reply".into(), format!("request {} answered with {}", hex(&good), hex(&reply))));
+            break 'script;
+        }
+        if !point_link(&link, &b.slave_path) {
+            ev.inconclusive("rtu server reopen leg: cannot re-point the symlink");
+            break 'script;
+        }
+        let t_kill = Instant::now();
+        unsafe { libc::close(a.master) };
+        a_closed_by_hand = true;
+        let b2 = b.clone();
+        let Some(t_open) = tokio::task::spawn_blocking(move || b2.wait_slave(true, Duration::from_secs(6))).await.ok().flatten() else {
+            problems.push(("rtu_server:port_not_reopened".into(), "the RTU server did not re-open its port within 6 s after it came back".into()));
+            break 'script;
+        };
+        ev.count("rtu_server_reopen_waits_measured", 1);
+        let calls = log.lock().unwrap().clone();
+        let announced = calls.iter().rev().find_map(|c| match c {
+            SCall::Disconnect(d) | SCall::Fail(d) => Some(*d),
+            _ => None,
+        });
+        if t_open.duration_since(t_kill) < min {
+            problems.push(("rtu_server:reopened_before_strategy_delay".into(), format!("the strategy returned {announced:?} after the port was lost, but the port was opened again {:?} after the loss", t_open.duration_since(t_kill))));
+        }
+        tokio::time::sleep(Duration::from_millis(50)).await;
+        let (b2, g2) = (b.clone(), good.clone());
+        let reply = tokio::task::spawn_blocking(move || {
+            b2.write(&g2);
+            b2.read_for(Duration::from_millis(600), Duration::from_millis(15))
+        })
+        .await
+        .unwrap_or_default();
+        if reply != want {
+            problems.push(("rtu_server:no_service_after_reopen".into(), format!("after the re-open, request {} was answered with {}", hex(&good), hex(&reply))));
+        } else {
+            ev.count("serial_frames_crc_checked", 1);
+        }
+    }
+    let _ = handle.shutdown().await;
+    if tokio::time::timeout(Duration::from_secs(10), jh).await.is_err() {
+        problems.push(("rtu_server:task_did_not_terminate".into(), "RTU server task still running 10 s after shutdown".into()));
+    }
+    let _ = std::fs::remove_file(&link);
+    if a_closed_by_hand {
+        if let Ok(p) = Arc::try_unwrap(a) {
+            std::mem::forget(p);
+        }
+    }
+    ev.class("rtu_server|pty|port_lost_and_back");
     problems
 }
 
